@@ -11,6 +11,8 @@ pub mod keycodec;
 pub mod schema;
 pub mod params;
 pub mod chain;
+pub mod snapshot;
+pub mod symbols;
 pub mod expr;
 
 /// SplitMix64: every random choice of a run derives from one state.
@@ -316,15 +318,11 @@ impl G {
             G::N(i) => write!(s, "{}%N", i).unwrap(),
             G::Nat(i) => write!(s, "{}%nat", i).unwrap(),
             G::Hex(b) => {
-                // a list of N literals: Coq parses it ~7x faster than a string literal
-                s.push('[');
-                for (i, x) in b.iter().enumerate() {
-                    if i > 0 {
-                        s.push(';');
-                    }
-                    write!(s, "{}%N", x).unwrap();
+                if b.is_empty() {
+                    s.push_str("[]")
+                } else {
+                    write!(s, "(hx \"{}\")", hex::encode(b)).unwrap()
                 }
-                s.push(']');
             }
             G::B(b) => s.push_str(if *b { "true" } else { "false" }),
             G::None_ => s.push_str("None"),
